@@ -130,7 +130,10 @@ instance : BEq BlockIter where
 /-- walk a block forward with the translated and the model `advance` in lock step, then backward with `prev`, and
     compare `seek_to_last`, `seek_to_restart_point` -/
 def checkBlock (acc : DAcc) (contents : Bytes) : IO DAcc := do
-  let mut acc := acc
+  let mut acc := { acc with evals := acc.evals + 1 }
+  let gw := Gen.block_is_well_formed (contents.length + 10) contents
+  if gw.toOption ≠ some (Block.isWellFormed contents) then
+    acc ← report { acc with diffs := acc.diffs + 1 } s!"DIFF block_is_well_formed block={hx contents} gen={showRes toString gw} model={Block.isWellFormed contents}"
   match Block.iter contents with
   | .ok it0 =>
     let fuel := contents.length * 2 + 40
